@@ -127,7 +127,7 @@ CONFIGS_THOROUGH = ["all", "default"]
 EXPLANATION = ("C14 (independence of backend and node cache): decides that the node cache is written only by to_node_cache and infos_to_nodes (R1), that what enters it is exactly node_from_bytes(index, "
                "storage bytes), never blank nodes, misses, changeset / unflushed / proof nodes, and that it is seeded with the roots read from storage (R2), that a cache miss falls through to the "
                "normal lookup and a hit returns the cached node for the requested index (R3), and that no code outside Storage::new_memory / new_disk names a concrete backend or inspects a backend's "
-               "dynamic type, each store mapping to its own trait object (R4), and that randomness / clocks / environment are read only by key generation, the flush cadence depends only on the core's own counters and signing is the deterministic Ed25519 signer (R5), and that `overwrite` empties each of the four stores (the store tested is the store truncated) and every Storage field holds the backend created for its own store (R6).")
+               "dynamic type, each store mapping to its own trait object (R4), and that randomness / clocks / environment are read only by key generation, the flush cadence depends only on the core's own counters and signing is the deterministic Ed25519 signer (R5), and that `overwrite` empties each of the four stores (the store tested is the store truncated, and nothing but `overwrite` and the store's own length decides it) and every Storage field holds the backend created for its own store (R6).")
 NOT_DECIDED = "byte identity of files across backends; hole punching / del semantics inside random-access-disk; effects of eviction; determinism of flush cadence (skip_flush_count is a plain counter) and of Ed25519 signatures (library)."
 ASSUMPTIONS = ["moka returns only values that were inserted under the same key", "tree nodes on disk are immutable once written except by truncation"]
 
